@@ -25,7 +25,7 @@ DEFS := -DPACKAGE_NAME=\"yara\" -DPACKAGE_TARNAME=\"yara\" -DPACKAGE_VERSION=\"4
  -DHAVE_SCAN_PROC_IMPL=1 -D_GNU_SOURCE -DUSE_LINUX_PROC -DDOTNET_MODULE -DHASH_MODULE \
  -DMACHO_MODULE -DDEX_MODULE -DBUCKETS_128=1 -DCHECKSUM_1B=1
 
-SAN   := -fsanitize=address,undefined -fno-sanitize=alignment -fno-sanitize-recover=undefined
+SAN   := -fsanitize=address,undefined -fno-sanitize=alignment,nonnull-attribute,pointer-overflow -fno-sanitize-recover=undefined -fsanitize-recover=null
 OPT   := -O1 -g -fno-omit-frame-pointer -fno-optimize-sibling-calls
 EXTRA :=
 COVTU :=
